@@ -195,9 +195,18 @@ def run(E: Engine, rep: Report, tier: str) -> dict:
     c_at = [l for l in Stg.log if l.fn == tg.short and l.kind == "call" and l.target is not None and l.target[0] == "attr" and l.target[2] == "add_target"]
     for f, calls in ((add, c_ap), (tg, c_at)):
         ok = bool(calls)
+        from .symutil import dnf as _dnf7
+
         for l in calls:
-            m = any_lit(l, "len(Q_c) == 1")
-            ok = ok and m is not None and unobj(m["Q_c"])[0] == "comp" and mentions(unobj(m["Q_c"])[2], "last_phase")
+            # on every alternative of the path condition that is not the DMM branch (a DMM has no phase reference) the
+            # targets share one reference: `len({last_phase of the targets}) == 1` is a conjunct, not one side of an `or`
+            for conj_ in _dnf7(l.cond):
+                if any(is_(x, "isinstance(Q_o, DMM)") is not None for x in conj_):
+                    continue
+                hit = None
+                for x in conj_:
+                    hit = hit or is_(x, "len(Q_c) == 1")
+                ok = ok and hit is not None and unobj(hit["Q_c"])[0] == "comp" and mentions(unobj(hit["Q_c"])[2], "last_phase")
         rep.check(ok, "GUARD", f"{f.short}|single-phase-reference", "targets with different phase references are rejected", f"{f.short} no longer rejects targets with different phase references before scheduling", E.where(f))
     # Pulse.__init__ modulo
     pin = E.fn("pulser.pulse.Pulse.__init__")
